@@ -654,6 +654,16 @@ def dags(rng, n, alap_share=0.3):
                             u.precedes.append(t)
                         else:
                             t.deps.append((u, onstart, gap))
+        for c in conts:
+            if c.deps and c.kids and rng.random() < 0.6:
+                if not c.deps[0][2] and not c.deps[0][1] and rng.random() < 0.6:
+                    c.deps[0] = (c.deps[0][0], False, G * rng.choice([1, 2, 4, 20]))        # the outer edge is the stricter one
+                u, onstart, gap = c.deps[0][0], c.deps[0][1], c.deps[0][2]
+                kid = rng.choice(c.kids)
+                if not any(d[0] is u for d in kid.deps) and not related(u, kid):
+                    kid.deps.append((u, False, rng.choice([0, 0, G]) if gap else rng.choice([0, 2 * G])))
+                if rng.random() < 0.5 and not alap:
+                    p.add_task(c.name + "tag", parent=c, milestone=True, deps=[(u, False, 0)])      # a milestone below the container: at the container's bound
         if alap:
             sinks = [t for t in leaves if not any(d[0] is t for u in order for d in u.deps)
                      and not any(t in u.precedes for u in order) and not t.precedes]
@@ -665,6 +675,11 @@ def dags(rng, n, alap_share=0.3):
                     c.end = start + timedelta(days=rng.randint(25, 35), hours=17)
         out.append(("dag%04d" % i, p))
     return out
+
+
+def dags_alap(rng, n):
+    """C08 / C04 backward mode: the nested DAGs of `dags`, every one of them scheduled backward."""
+    return [("b" + pid, p) for pid, p in dags(rng, n, alap_share=1.0)]
 
 
 def limits_profile(rng, n):
@@ -755,9 +770,11 @@ def trees(rng, n):
         never = p.add_res("never", leaves=[(start, start + timedelta(days=400))])
         leaves = []
 
+        reuse = rng.random() < 0.4          # local ids repeat under different parents (unique among siblings only)
+
         def mk(parent, depth, prefix):
             for k in range(rng.randint(1, 3)):
-                name = "%s%d" % (prefix, k)
+                name = "%s%d" % ("n" if reuse else prefix, k)
                 if depth < 6 and rng.random() < (0.6 if depth < 3 else 0.3):
                     c = p.add_task(name, parent=parent)
                     mk(c, depth + 1, name + "y")
@@ -791,7 +808,7 @@ def alap_profile(rng, n):
         start = datetime(2024, 5, 6)
         proj_alap = rng.random() < 0.5
         p = Proj(start=start, G=G, length="+4w", alap=proj_alap)
-        rs = [p.add_res("r%d" % k, eff=rng.choice(["1", "1", "2", "0.5"])) for k in range(rng.randint(1, 2))]
+        rs = [p.add_res("r%d" % k, eff=rng.choice(["1", "1", "1", "2", "0.5"])) for k in range(rng.randint(1, 3))]
         cont = p.add_task("c") if rng.random() < 0.4 else None
         if cont is not None:
             cont.end = start + timedelta(days=rng.randint(10, 20), hours=rng.choice([9, 12, 17]))
@@ -814,13 +831,42 @@ def alap_profile(rng, n):
                 for d in rng.sample(ts, min(len(ts), rng.choice([1, 1, 2]))):
                     gap = rng.choice([G, 2 * G, 4 * G, 8 * G]) if rng.random() < 0.5 else 0
                     deps.append((d, False, gap))
-            t = p.add_task("t%d" % k, parent=cont if (cont and rng.random() < 0.7) else None, effort=effort, alloc=[r],
+            team = [r]
+            if len(rs) > 1 and rng.random() < 0.25:
+                mates = [x for x in rs if x is not r and x.eff == r.eff]
+                if mates:
+                    team = [r, mates[0]] if rng.random() < 0.5 else [mates[0], r]      # the busier member may be listed first or last
+            t = p.add_task("t%d" % k, parent=cont if (cont and rng.random() < 0.7) else None, effort=effort, alloc=team,
                            deps=deps, mode=None if proj_alap else "alap")
             ts.append(t)
         sinks = [t for t in ts if not any(d[0] is t for u in ts for d in u.deps)]
         for t in sinks:
             if t.parent is None or rng.random() < 0.5:
                 t.end = start + timedelta(days=rng.randint(8, 22), hours=rng.choice([10, 13, 17]))
+        if len(rs) > 1 and rng.random() < 0.3:
+            a, b = rng.sample(rs, 2)
+            if a.eff == b.eff == 1:
+                half = G // 2 if (G // 2) % 60 == 0 else G
+                quarter = G // 4 if (G // 4) % 60 == 0 else half
+                late = p.add_task("late", effort=G * rng.randint(1, 3) + half, alloc=[a], mode=None if proj_alap else "alap")
+                late.end = start + timedelta(days=rng.randint(23, 26), hours=rng.choice([12, 15, 17]))
+                pair = p.add_task("pair", effort=rng.choice([quarter, quarter, half, G + quarter]), alloc=rng.choice([[a, b], [b, a]]),
+                                  mode=None if proj_alap else "alap")
+                late.deps.append((pair, False, 0))
+                if rng.random() < 0.5:
+                    p.add_task("solo", effort=quarter, alloc=[rng.choice([a, b])], mode=None if proj_alap else "alap").precedes.append(pair) if False else None
+        if len(rs) > 1 and rng.random() < 0.3:
+            # several backward tasks anchored at the same instant, a team among them: they pack into the same slots from the end
+            a, b = rng.sample(rs, 2)
+            if a.eff == b.eff == 1:
+                D = start + timedelta(days=rng.randint(24, 27), hours=rng.choice([12, 17]))
+                half = G // 2 if (G // 2) % 60 == 0 else G
+                quarter = G // 4 if (G // 4) % 60 == 0 else half
+                trio = [("x", G * rng.randint(1, 3) + half, [a]), ("y", rng.choice([quarter, half, G + quarter]), rng.choice([[a, b], [b, a]])),
+                        ("z", G * rng.randint(1, 2) + quarter, [b])]
+                rng.shuffle(trio)
+                for nm, eff, al in trio:
+                    p.add_task("s" + nm, effort=eff, alloc=al, mode=None if proj_alap else "alap", end=D)
         if rng.random() < 0.12:
             # a dependency loop through an anchored task: nobody on the loop can be placed consistently
             anch = [t for t in sinks if t.end is not None and t.deps]
@@ -828,6 +874,67 @@ def alap_profile(rng, n):
                 s = rng.choice(anch)
                 s.deps[0][0].deps.append((s, False, rng.choice([0, G])))
         out.append(("alap%04d" % i, p))
+    return out
+
+
+def alap_pack(rng, n):
+    """C01 / C03 / C06 backward mode: several tasks anchored at the same (or a nearby) instant pack into the same slots from the
+    end; teams of two or three in every order of their members, efforts of quarter slots, so that a team starts inside a slot
+    whose tail one of its members has already given to another task."""
+    out = []
+    for i in range(n):
+        G = rng.choice([3600, 3600, 1800])
+        start = datetime(2025, 6, 2)
+        proj_alap = rng.random() < 0.5
+        p = Proj(start=start, G=G, length="+2w", alap=proj_alap)
+        rs = [p.add_res(nm) for nm in ("a", "b", "c")[:rng.randint(2, 3)]]
+        D = start + timedelta(days=4, hours=rng.choice([12, 17]))
+        q = G // 4 if (G // 4) % 60 == 0 else G // 2        # 1800-second slots: half slots (whole minutes)
+        tasks = []
+        for k in range(rng.randint(3, 5)):
+            if rng.random() < 0.45 and len(rs) > 1:
+                al = rng.sample(rs, rng.randint(2, len(rs)))          # a team, members in a random order
+                eff = q * rng.choice([1, 1, 2, 3, 5])
+            else:
+                al = [rng.choice(rs)]
+                eff = q * rng.choice([2, 6, 9, 10, 11, 4])
+            end = D if rng.random() < 0.8 else D - timedelta(seconds=G * rng.randint(1, 3))
+            tasks.append(p.add_task("t%d" % k, effort=eff, alloc=al, mode=None if proj_alap else "alap", end=end,
+                                    prio=rng.choice([None, None, 600, 400])))
+        out.append(("pack%04d" % i, p))
+    return out
+
+
+def staged_containers(rng, n):
+    """C04 / C08 (both directions): three container levels, dependencies written on the two outer levels (so that a leaf
+    inherits from EVERY enclosing container, not only from the nearest one that has some), leaves with and without edges of
+    their own, gaps on the outer edges."""
+    out = []
+    for i in range(n):
+        G = rng.choice([3600, 1800])
+        start = datetime(2025, 3, 3)
+        alap = rng.random() < 0.6
+        p = Proj(start=start, G=G, length="+8w", alap=alap)
+        rs = [p.add_res("r%d" % k) for k in range(rng.randint(1, 3))]
+        mode = None
+        t = p.add_task("t", effort=G * rng.randint(2, 12), alloc=[rng.choice(rs)])
+        u = p.add_task("u", effort=G * rng.randint(2, 12), alloc=[rng.choice(rs)])
+        c = p.add_task("c", deps=[(t, False, rng.choice([0, 0, G, 6 * G]))])
+        d = p.add_task("d", parent=c, deps=[(u, False, rng.choice([0, G]))] if rng.random() < 0.8 else [])
+        inner = d
+        if rng.random() < 0.4:
+            inner = p.add_task("e", parent=d, deps=[(u, False, 0)] if not d.deps else [])
+        leaves = []
+        for k in range(rng.randint(1, 3)):
+            own = [(rng.choice(leaves), False, 0)] if leaves and rng.random() < 0.4 else []
+            leaves.append(p.add_task("s%d" % k, parent=inner, effort=G * rng.randint(1, 8), alloc=[rng.choice(rs)], deps=own))
+        if rng.random() < 0.5:
+            leaves.append(p.add_task("side", parent=c, effort=G * rng.randint(1, 6), alloc=[rng.choice(rs)]))
+        if alap:
+            for s_ in leaves:
+                if not any(x[0] is s_ for y in leaves for x in y.deps):
+                    s_.end = start + timedelta(days=rng.randint(25, 40), hours=rng.choice([9, 13, 17]))
+        out.append(("stage%04d" % i, p))
     return out
 
 
